@@ -165,6 +165,23 @@ def arraylit_sources():
                 out.append(("%s:%s" % (name, vname), wrap % render(el, sep)))
             if sep == ":":
                 out.append(("%s-brace:%s" % (name, vname), "$v0 = %s ;" % render(el, sep, "{", "}")))
+            # the array( ... ) spelling of the same literal
+            out.append(("%s-arraykw:%s" % (name, vname), "$v0 = %s ;" % render(el, sep, "array (", ")")))
+            out.append(("%s-arraykw:%s" % (name, vname), "echo count ( %s ) ;" % render(el, sep, "array (", ")")))
+    # other constructs whose body / subject expression can be left out: accepted must mean complete (executed)
+    for tag, src in [("fn-nobody", "$g = fn ( $p ) => ; echo $g ( 1 ) ;"), ("fn-nobody-arg", "echo f ( fn ( $p ) => ) ;"),
+                     ("fn-nobody-arr", "$g = [ fn ( ) => ] ; echo $g [ 0 ] ( ) ;"), ("fn-ok", "$g = fn ( $p ) => $p + 1 ; echo $g ( 1 ) ;"),
+                     ("static-fn-nobody", "$g = static fn ( ) => ; echo $g ( ) ;"),
+                     ("forin-noarray", "for $i in { echo 1 ; }"), ("forin-noarray-eof", "for $i in"), ("forin-noarray-paren", "for ( $i in ) { echo 1 ; }"),
+                     ("forin-noarray-semi", "for $i in ; echo 2 ;"), ("forin-kv-noarray", "for $k , $w in ) { }"), ("forin-ok", "for $i in [ 1 , 2 ] { echo $i ; }"),
+                     ("foreach-noarray", "foreach ( as $w ) { }"), ("while-nocond", "while ( ) { }"), ("closure-nobody", "$g = function ( ) ; echo $g ( ) ;"),
+                     ("match-noarm", "$v0 = match ( 1 ) { 1 => } ;"), ("match-nocond", "$v0 = match ( 1 ) { => 2 } ;"),
+                     ("ternary-nomid", "$v0 = $v1 ? : ;"), ("new-noargs", "$v0 = new Exception ( , ) ;"), ("list-assign-novalue", "$v1 , $v2 = ;"),
+                     ("print-nothing", "print ;"), ("clone-nothing", "$v0 = clone ;"), ("throw-nothing-expr", "$v0 = 1 ?? throw ;"),
+                     ("yield-nothing", "function y ( ) { yield => ; } foreach ( y ( ) as $w ) { }"), ("static-novalue", "static $z = ;"),
+                     ("const-novalue", "const Z = ;"), ("global-nothing", "global ;"), ("unset-nothing", "unset ( , ) ;"), ("isset-nothing", "echo isset ( , ) ;"),
+                     ("instanceof-nothing", "echo $v1 instanceof ;"), ("spread-nothing", "echo f ( ... ) ;"), ("index-nothing", "echo $v1 [ , ] ;")]:
+        out.append((tag, src))
     return out
 
 
@@ -177,7 +194,7 @@ def heredoc_sources():
         for ind in ("", " ", "  ", "      ", "\t", " \t ", "        "):
             for k, b in enumerate(bodies):
                 lines = [bodies[(k + 1) % len(bodies)], b, ind + "tail"]
-                for order in (lines, lines[::-1], [b]):
+                for order in (lines, [b]):
                     label = "'EOT'" if nowdoc else "EOT"
                     src = "$v1 = 1; $v2 = 2;\n$h = <<<%s\n%s\n%sEOT;\necho strlen($h);\n" % (label, "\n".join(order), ind)
                     out.append(("%s:ind%d:body%d" % ("nowdoc" if nowdoc else "heredoc", len(ind), k), src))
@@ -294,13 +311,21 @@ def main(ck):
                 m = "template" if rng.random() < 0.25 else "plain"
                 cases.append({"hex": ((b"<?php " if m == "template" else b"") + a + b" " + b).hex(), "mode": m, "origin": "alpha2",
                               "mut": "-", "run": True})
-        trip = [(a, b, c) for a in ALPHA for b in ALPHA for c in ALPHA] if not quick else [tuple(rng.choice(alpha) for _ in range(3)) for _ in range(1500)]
+        trip = [(a, b, c) for a in ALPHA for b in ALPHA for c in ALPHA] if not quick else [tuple(rng.choice(alpha) for _ in range(3)) for _ in range(1000)]
         for a, b, c in trip:
             cases.append({"hex": (a + b" " + b + b" " + c).hex(), "mode": "plain", "origin": "alpha3", "mut": "-", "run": False})
         # tails that end a source in the middle of a multi-byte look-ahead or of an opening construct
         tails = [b"\xe3", b"\xe3\x80", b"\xe3\x80\x80", b"$", b"\\", b"'", b'"', b"`", b"/", b"/*", b"/* x *", b"//", b"<", b"<<", b"<<<",
                  b"<<<A", b"<<<'A'", b"b'", b"b'\\", b"-", b"1e", b"1e+", b"1.", b"0x", b"?", b"?-", b"<?", b"<?ph", b"\xff", b"\xc3", b"\xf0\x9f",
                  b"$.SERVER(", b'"$', b'"{$', b'"@{', b"#", b"#!", b"@", b"::", b"->", b"=>", b"..."]
+        # a source that starts with <!DOCTYPE is handed to the HTML lexer: every tail and a set of HTML-ish fragments after it
+        html_frags = [b"<}", b"<div for=&{", b"<p-<div \x00", b"{<style>x{$a}=>-><!->", b"<?php \n?><!DOCTYPE", b"<br/>-></<div {$a}", b"</script><->",
+                      b"{'<div ?>-<?php ", b"{{=<::\\}}:div", b"<&amp;</style>", b"<script>-><)</<?php ", b"$a<div><div text{{{$a}", b"<html><body>x</body></html>",
+                      b"<div a=\"b\">{$a}</div>", b"<", b">", b"</", b"\xff", b"<!--", b"<div @click=\"f()\">"]
+        for hdr in (b"<!DOCTYPE html>", b"<!DOCTYPE", b"<!DOCTYPE html>\n<html>"):
+            for t in tails + html_frags:
+                for m in ("plain", "template"):
+                    cases.append({"hex": (hdr + t).hex(), "mode": m, "origin": "doctype", "mut": "-", "run": False})
         for base in (b"", b"$a = 1;\n", b"$a = ", b"f(", b"'s' ", b"// c\n"):
             for t in tails:
                 for m in ("plain", "template"):
@@ -317,7 +342,10 @@ def main(ck):
                    (b"\"{$a[", b"]}\""), (b"\"${", b"}\""), (b"<<<A\n{$a[", b"]}\nA\n"), (b"yield ", b""), (b"throw ", b""), (b"include ", b""),
                    (b"++", b""), (b"try{", b"}"), (b"do{", b"}while(0);"), (b"while(1)", b""), (b"for(;;)", b""), (b"foreach($a as $b)", b""),
                    (b"switch(1){case 1:", b"}"), (b"if(1){}else ", b""), (b"class A{function f(){", b"}}"), (b"isset(", b")"), (b"list(", b")"),
-                   (b"#[A(", b")]")]
+                   (b"#[A(", b")]"), (b"[$a, ", b"]"), (b"[$a, $b, ", b"]"), (b"f($a, ", b")"), (b"[$a, $b, $c => ", b"]")]
+        # (the last four: the look-ahead for `$a, $b = ...` made these exponential in the depth - 16 levels took a minute -
+        # until fix c9660c6; they are also run at depth 20, where an exponential parser does not answer)
+        SHALLOW = (b"[$a, ", b"[$a, $b, ", b"f($a, ", b"[$a, $b, $c => ")
         # bytes: the deepest inputs are as deep as a source of this size allows (at most 10^6 levels)
         BIG = 4000000 if quick else 8000000
         # nested heredocs inside interpolation are re-lexed once per level (known finding time:heredoc-nest, measured by
@@ -331,7 +359,7 @@ def main(ck):
                 cases.append({"hex": src.hex(), "mode": m, "origin": "depth", "mut": tag + ("" if closed else ":open"), "run": False})
         for k, (op, cl) in enumerate(openers):
             big = min(1000000, BIG // (len(op) + len(cl)), MAXN.get(op, 10 ** 9))
-            for n in ((1500, big) if quick else (1500, 100000, big)):
+            for n in ((20, 1500) if op in SHALLOW else ((1500, big) if quick else (1500, 100000, big))):
                 for closed in (True, False):
                     if quick and n == big and not closed:
                         continue                                  # quick tier: the deepest inputs only in their closed form
@@ -342,6 +370,8 @@ def main(ck):
             else:
                 partners = [o for o in openers if o[0] != op]
             for op2, cl2 in partners:
+                if op in SHALLOW or op2 in SHALLOW:
+                    continue
                 big2 = min(500000, BIG // (len(op) + len(cl) + len(op2) + len(cl2)), MAXN.get(op, 10 ** 9), MAXN.get(op2, 10 ** 9))
                 depth_cases(op + op2, cl2 + cl, big2 if quick else min(big2, 200000), True, ("plain",), op.decode("latin-1") + "+" + op2.decode("latin-1"))
         # (i) corpus files: first pass to get the token spans
@@ -495,6 +525,10 @@ def main(ck):
             "elseif-ladder": lambda n: b"if ($a) { $b = 1; }" + b" elseif ($a) { $b = 2; }" * n + b" else { $b = 3; }",
             "functions": lambda n: b"".join(b"function g%d($p) { return $p; }\n" % k for k in range(n)),
             "cases": lambda n: b"switch ($a) {\n" + b"".join(b"case %d: $b = 1; break;\n" % k for k in range(n)) + b"}",
+            # a chain of minus signs glued to digits: every `-1` is a signed literal that parseTerm splits by rebuilding the token list
+            # a long flat list whose elements are plain variables: each one asks whether a multiple assignment follows
+            "var-list": lambda n: b"$x = [" + b"$a, " * n + b"1];",
+            "minus-chain": lambda n: b"$x = 1" + b"-1" * n + b";",
             "heredoc-nest": lambda n: b"$x = " + b"<<<A\n{$a[" * n + b"1" + b"]}\nA\n" * n + b";",
         }
         n0 = 4000 if quick else 20000
@@ -543,7 +577,7 @@ def main(ck):
     # ---- tie: lexer model vs real lexer on (a size-limited part of) this distribution
     tie = [i for i, c in enumerate(cases) if len(c["hex"]) <= (1000 if quick else 4000) and not outs[i].get("dead")
            and not outs[i].get("exited")]
-    cap = 900 if quick else 20000
+    cap = 600 if quick else 20000
     if len(tie) > cap:
         tie = sorted(rng.sample(tie, cap))
     order = sorted(tie, key=lambda i: -len(cases[i]["hex"]))
